@@ -2103,8 +2103,16 @@ class FileSet:
         """
         if max_interval is not None:
             max_interval = to_timedelta(max_interval, numbers_as="seconds")
-            start = to_datetime(start) - max_interval
-            end = to_datetime(end) + max_interval
+            # Widen the period but stay inside the range of datetime (start
+            # and end default to datetime.min and datetime.max):
+            try:
+                start = to_datetime(start) - max_interval
+            except OverflowError:
+                start = datetime.min
+            try:
+                end = to_datetime(end) + max_interval
+            except OverflowError:
+                end = datetime.max
 
         files1 = list(
             self.find(start, end, filters=filters)
